@@ -131,7 +131,7 @@ func VerifC19_ScanOptions() {
 }
 
 // VerifC19_BatchWriteLimits: a batch of 1-2 operations of which one may violate a documented limit (empty key, key of
-// 4097 bytes, unknown operation type; a batch of 1001 operations) or be valid. A valid batch has the effect of the
+// 4097 bytes, unknown operation type, a value above the value limit; a batch of 1001 operations) or be valid. A valid batch has the effect of the
 // same embedded batch; a rejected one returns an error, changes nothing, and leaves the database usable: a scan and
 // a further write through the service still complete.
 func VerifC19_BatchWriteLimits() {
@@ -143,7 +143,7 @@ func VerifC19_BatchWriteLimits() {
 	vsym.Assume(vsym.LessBytes(k0, k1))
 	v0, v1 := vsym.Bytes("v0", 1), vsym.Bytes("v1", 1)
 	ops := []*pb.Operation{{Type: pb.Operation_PUT, Key: k0, Value: v0}, {Type: pb.Operation_PUT, Key: k1, Value: v1}}
-	bad := vsym.IntRange("bad", 0, 4)
+	bad := vsym.IntRange("bad", 0, 5)
 	at := vsym.IntRange("at", 0, 1)
 	switch bad {
 	case 1:
@@ -152,6 +152,11 @@ func VerifC19_BatchWriteLimits() {
 		ops[at].Key = make([]byte, 4097)
 	case 3:
 		ops[at].Type = pb.Operation_Type(7)
+	case 5:
+		// a value above the server's value limit (the limit is a field of the server: scaled down from 10 MiB to
+		// 8 bytes here, the comparison executed is the same)
+		s.maxValueSize = 8
+		ops[at].Value = make([]byte, 9)
 	case 4:
 		for len(ops) < 1001 {
 			ops = append(ops, &pb.Operation{Type: pb.Operation_DELETE, Key: []byte{1}})
